@@ -242,6 +242,11 @@ func (o RewriteOpts) atomArg(a Atom) *YNode {
 func (o RewriteOpts) body(f Formula) *YNode {
 	m := ymap()
 	switch x := f.(type) {
+	case Rego:
+		if x.Message != "" {
+			return m.put("rego", ymap().put("message", ystr(x.Message)).put("code", ystr(x.Code)))
+		}
+		return m.put("rego", ystr(x.Code))
 	case Atom, Nested, Quant:
 		return o.body(And{[]Formula{x}})
 	case And:
@@ -541,5 +546,14 @@ func BaseProfilesC15() []Program {
 			Atom{Path: PSeq{[]Path{P(0), PAlt{[]Path{P(1), Pinv(0)}}}}, Kind: "minCount", N: 1})},
 		{Name: "vb", Level: "info", Class: 0, F: a(Atom{Path: P(0), Kind: "lessThanProperty", Other: P(1)}, Atom{Path: P(0), Kind: "datatype", Type: "integer"})},
 	}}
-	return []Program{b1, b2, b3}
+	isStr := func(p int) Formula {
+		return Rego{Code: fmt.Sprintf("$result = is_string(object.get($node, %q, 0))", PredIRI(p))}
+	}
+	b4 := Program{Name: "B4", Validations: []Validation{
+		// several embedded-Rego operands with the same (default) message and different code
+		{Name: "va", Level: "violation", Class: 0, F: And{[]Formula{isStr(0), isStr(1)}}},
+		{Name: "vb", Level: "warning", Class: 0, F: Not{Or{[]Formula{isStr(1), isStr(0), Rego{Code: "$result = is_number(object.get($node, \"" + PredIRI(0) + "\", \"\"))", Message: "custom"}}}}},
+		{Name: "vc", Level: "info", Class: 1, F: Or{[]Formula{isStr(0), a(Atom{Path: P(1), Kind: "minCount", N: 1})}}},
+	}}
+	return []Program{b1, b2, b3, b4}
 }
